@@ -25,12 +25,13 @@ inductive Verdict
   deriving Repr, DecidableEq
 
 /-- one tick: the deadline wins over everything that arrives on its tick; otherwise another key's
-press or reaching the list length ends the dance on the new count; otherwise a grown count moves
+press or reaching the list length ends the dance on the new count, which never exceeds the list
+length (taps queued beyond it are not part of this dance); otherwise a grown count moves
 the deadline to `T` ticks from now -/
 def specStep (T len k rem : Nat) (a : Arrival) : Verdict :=
   if rem ≤ 1 then .decided k
   else if !a.grew then .pending k (rem - 1)
-  else if a.other || decide (k + a.taps ≥ len) then .decided (k + a.taps)
+  else if a.other || decide (k + a.taps ≥ len) then .decided (inThisDance (k + a.taps) len)
   else .pending (k + a.taps) (if a.taps > 0 then T else rem - 1)
 
 /-- ticks consumed (stops at the decision) and the verdict -/
@@ -125,7 +126,8 @@ theorem tickWtTd_fast (w : Waiting) (acts : List Action) (T k : Nat) (q : List Q
 theorem tickWtTd_slow (w : Waiting) (acts : List Action) (T k : Nat) (q : List Queued)
     (h0 : 0 < w.timeout) (hl : q.length % 256 ≠ w.prevQueueLen) :
     tickWtTd w acts T k q =
-      if interrupted w q || decide (seenTaps w q ≥ acts.length) then tdDecide w acts T (seenTaps w q) k q
+      if interrupted w q || decide (seenTaps w q ≥ acts.length) then
+        tdDecide w acts T (inThisDance (seenTaps w q) acts.length) k q
       else .ok (tdNext w acts T (seenTaps w q) k q.length, q, none) := by
   unfold tickWtTd tdDecide tdNext
   rw [handleTapDance_spec]
@@ -134,7 +136,7 @@ theorem tickWtTd_slow (w : Waiting) (acts : List Action) (T k : Nat) (q : List Q
   simp only [h1, Bool.false_and, Bool.false_eq_true, if_false, h2]
   by_cases hc : (interrupted w q || decide (seenTaps w q ≥ acts.length)) = true
   · simp only [hc, if_true]
-    cases hp : tdPick acts (seenTaps w q) <;> rfl
+    cases hp : tdPick acts (inThisDance (seenTaps w q) acts.length) <;> rfl
   · simp only [hc, Bool.false_eq_true, if_false]
 
 /-! ## One tick refines one abstract step -/
@@ -234,7 +236,7 @@ theorem tickWtTd_refines {w : Waiting} {acts : List Action} {T k : Nat} {q : Lis
       generalize nPr w (b.takeWhile (fun s => !otherPress w s)) = t at *
       by_cases hc : (interrupted w b || decide (k + t ≥ acts.length)) = true
       · simp only [hc, if_true]
-        exact hdec (k + t)
+        exact hdec (inThisDance (k + t) acts.length)
       · simp only [hc, Bool.false_eq_true, if_false]
         simp only [Bool.or_eq_true, decide_eq_true_eq, not_or] at hc
         refine ⟨_, rfl, ?_, ?_, ?_, rfl, rfl, rfl⟩
@@ -359,14 +361,14 @@ theorem specStep_quiet {T len k rem : Nat} {a : Arrival} (ha : a.quiet) (hk : k 
   split <;> rfl
 
 theorem specStep_tap {T len k rem : Nat} {a : Arrival} (ha : a.oneTap) (hr : 1 < rem) :
-    specStep T len k rem a = if k + 1 ≥ len then .decided (k + 1) else .pending (k + 1) T := by
+    specStep T len k rem a = if k + 1 ≥ len then .decided (inThisDance (k + 1) len) else .pending (k + 1) T := by
   unfold specStep
   have h1 : ¬ rem ≤ 1 := by omega
   simp only [h1, if_false, ha.1, ha.2.1, ha.2.2, Bool.not_true, Bool.false_eq_true, Bool.false_or,
     decide_eq_true_eq, Nat.lt_add_one, if_true]
 
 theorem specStep_other {T len k rem : Nat} {a : Arrival} (hg : a.grew = true) (ho : a.other = true) (hr : 1 < rem) :
-    specStep T len k rem a = .decided (k + a.taps) := by
+    specStep T len k rem a = .decided (inThisDance (k + a.taps) len) := by
   unfold specStep
   have h1 : ¬ rem ≤ 1 := by omega
   simp [h1, hg, ho]
@@ -430,11 +432,11 @@ theorem spec_deadline_wins {T len k : Nat} (hk : k < len) (l : List Arrival) (hq
   omega
 
 /-- another key's press seen before the deadline ends the dance on that tick, on the count
-including the taps that arrived before it -/
+including the taps that arrived before it - but never on more taps than the list is long -/
 theorem spec_interrupt {T len k : Nat} (hk : k < len) (l : List Arrival) (hq : ∀ a ∈ l, a.quiet)
     (rem : Nat) (hl : l.length + 1 < rem) (a : Arrival) (hg : a.grew = true) (ho : a.other = true)
     (rest : List Arrival) :
-    specRun T len k rem (l ++ a :: rest) = (l.length + 1, .decided (k + a.taps)) := by
+    specRun T len k rem (l ++ a :: rest) = (l.length + 1, .decided (inThisDance (k + a.taps) len)) := by
   rw [specRun_quiet_prefix hk l rem _ hq (by omega),
     specRun_cons_decided _ (specStep_other hg ho (by omega))]
   simp only [Prod.mk.injEq, and_true]
@@ -487,7 +489,7 @@ theorem spec_exhausted {T len : Nat} {m g : Nat} {l : List Arrival} (h : Taps T 
   have hst : specStep T len (k + m) (T - quiets.length) a = .decided len := by
     rw [specStep_tap ha (by omega)]
     have : k + m + 1 ≥ len := by omega
-    simp [hk]
+    simp [hk, inThisDance]
   rw [specRun_cons_decided _ hst]
   simp only [Prod.mk.injEq, and_true]
   omega
